@@ -2,6 +2,7 @@ import Tftp.Driver.Util
 import Tftp.Driver.Worker
 import Tftp.Driver.Server
 import Tftp.Driver.Config
+import Tftp.Driver.Net
 open Tftp Tftp.Driver
 
 def dispatch (line : String) : String :=
@@ -16,6 +17,7 @@ def dispatch (line : String) : String :=
     else if cmd = "req" then reqLine toks
     else if cmd = "storm" then stormLine toks
     else if cmd = "cfg" then cfgLine toks
+    else if cmd = "loop" then loopLine toks
     else "bad-op"
 
 partial def loop (hin : IO.FS.Stream) (hout : IO.FS.Stream) : IO Unit := do
